@@ -243,6 +243,12 @@ func c13Run(c *core.Ctx) {
 		c13ResolveThen(c, []byte(src), verStr(v))
 	})
 	for _, cs := range deepCases(c) {
+		// the thorough tier's deepest programs (3000 and 5000 levels) are left to the checks that look at a tree once: a
+		// dump indents every line by its depth, so the outputs compared here grow with the square of the depth (hundreds
+		// of megabytes per operation; a worker ran into the 3 GB heap backstop)
+		if strings.Contains(cs.Why, "n=3000") || strings.Contains(cs.Why, "5000 block levels") {
+			continue
+		}
 		if c.Next() {
 			drive.SetBlockSize(drive.ProdBlock)
 			c13Tree(c, cs.Src, cs.Ver, 2, nil)
